@@ -141,6 +141,18 @@ def reverse (a : Annotation) (swapTerms : Bool) : Annotation :=
     nterm := if swapTerms then a.cterm else a.nterm
     cterm := if swapTerms then a.nterm else a.cterm }
 
+/-! ### stable sort (Python `sorted` / `list.sort` with a key) -/
+
+/-- stable insertion of `x` by key `c.toNat` (goes before the first element that is not smaller) -/
+def insertBy {α} (key : α → Nat) (x : α) : List α → List α
+  | [] => [x]
+  | y :: ys => if key x ≤ key y then x :: y :: ys else y :: insertBy key x ys
+
+/-- stable sort by `key` (Python `sorted(..., key=...)` is stable) -/
+def sortBy {α} (key : α → Nat) : List α → List α
+  | [] => []
+  | x :: xs => insertBy key x (sortBy key xs)
+
 /-! ### shift -/
 
 def shiftEntry (eff n : Int) (p : Int × List Mod) : Int × List Mod := ((p.1 - eff) % n, p.2)
@@ -168,7 +180,8 @@ def shift (a : Annotation) (k : Int) : Except Err Annotation :=
     match a.intervals with
     | none => none
     | some l =>
-      let l' := l.map (shiftInterval eff n)
+      -- `new_intervals.sort(key=lambda i: i.start)` (fix d7e4e20); starts are `x % n ≥ 0`
+      let l' := sortBy (fun (iv : Interval) => iv.start.toNat) (l.map (shiftInterval eff n))
       if l'.isEmpty then none else some l'
   .ok { a with seq := a.seq.drop e ++ a.seq.take e, internal := newInternal, intervals := newIntervals }
 
@@ -204,16 +217,6 @@ def permuteWith (a : Annotation) (perm : List Nat) (newSeq : List Char) : Except
 def shuffle (a : Annotation) (perm : List Nat) : Except Err Annotation :=
   if a.seq.isEmpty then .error .valueError else   -- `zip(*[])` cannot be unpacked into two names
   permuteWith a perm (perm.filterMap (a.seq[·]?))
-
-/-- stable insertion of `x` by key `c.toNat` (goes before the first element that is not smaller) -/
-def insertBy {α} (key : α → Nat) (x : α) : List α → List α
-  | [] => [x]
-  | y :: ys => if key x ≤ key y then x :: y :: ys else y :: insertBy key x ys
-
-/-- stable sort by `key` (Python `sorted(..., key=...)` is stable) -/
-def sortBy {α} (key : α → Nat) : List α → List α
-  | [] => []
-  | x :: xs => insertBy key x (sortBy key xs)
 
 /-- `sorted(range(n), key=lambda x: seq[x])` -/
 def sortOrder (seq : List Char) : List Nat :=
